@@ -54,3 +54,13 @@ package auditlog
 //@ mode nosafety
 //@ frame
 //@ assigns e.Hash e.SignatureEd25519
+
+// The hash input is a sequence of length-prefixed fields, which is what makes it injective: two different assignments
+// of values to fields never produce the same bytes. Every field - an empty one too - contributes its 4-byte length
+// before its bytes.
+//@ func writeBytes
+//@ property C27
+//@ mode effects
+//@ effect[C27:every-field-is-length-prefixed] every returns() if err == nil
+//@     needs before binary.Write($pw, _, $v) where $pw == w && $v.(uint32) == l
+//@ effect[C27:field-bytes-follow-their-length] every w.Write($p) needs before binary.Write(_, _, _) -> ($e) where $e == nil && same($p, b)
